@@ -153,6 +153,7 @@ pub fn parse_fuzz(eng: &mut Engine, rng: &mut Rng, n: u64, out: &mut Out) {
                 _ => true,
             };
             out.count(&format!("c12:parse:{target}"));
+            out.oracle_only += 1;
             let _ = panics;
             if !ok {
                 panics += 1;
